@@ -310,6 +310,16 @@ def run(ck):
     order = [p for p, _ in pairs]
     ck.ob('TAB-helix', mod.loc(pat), order.index('.HHHH') > max(order.index(p) for p in full) and order.index('HHHH.') > max(order.index(p) for p in full),
           'closed (short) patterns are applied before the open-ended ones', key='TAB-helix|order')
+    # each pattern is applied until it no longer occurs: neighbouring short helices share their delimiter, and str.replace skips overlapping occurrences
+    reps = [c for c in walk_local(conv) if isinstance(c, ast.Call) and call_attr(c) == 'replace' and u(c.func.value) == 'wildcard_sequence']
+    ok_rep = False
+    if len(reps) == 1:
+        wl_ = [w for w in mod.ancestors(reps[0]) if isinstance(w, ast.While)]
+        fl_ = [f for f in mod.ancestors(reps[0]) if isinstance(f, ast.For)]
+        ok_rep = len(wl_) == 1 and u(wl_[0].test) in ('pattern in wildcard_sequence',) and len(fl_) == 1 and u(fl_[0].iter) == 'patterns.items()' and \
+            [u(a) for a in reps[0].args] == ['pattern', 'replacement'] and not any(isinstance(n, (ast.Break, ast.Continue)) for n in ast.walk(fl_[0]))
+    ck.ob('TAB-helix', mod.loc(conv), ok_rep, 'every pattern, in table order, is substituted repeatedly until no occurrence is left (a single str.replace misses occurrences that '
+          'overlap in their delimiting dot)', key='TAB-helix|exhaustive-replace')
     # flanking dots and their removal; recombination keeps length
     src = u(conv)
     flank = [s for s in walk_local(conv) if isinstance(s, ast.Assign) and isinstance(s.value, ast.BinOp) and u(s.targets[0]) == 'wildcard_sequence']
